@@ -391,7 +391,104 @@ func checkC17(ctx *core.Ctx, rep *core.Report) {
 			}
 		}
 	}
+	// ---- pairs of extensions harvested from the corpus, criticality product, both orders ------
+	// Rules that look at two extensions together are written against certificates that carry one of them (that is what the
+	// corpus holds). Every distinct extension of the corpus that the template lacks is tried alone on the template and kept if
+	// it reaches a new (lint, status) pair; every pair of kept extensions is then added with each of the four criticality
+	// combinations, in both orders: the status vector must be the same.
+	{
+		extTmpls := map[string]func(extra ...*der.Node) []byte{
+			"tls_leaf": func(extra ...*der.Node) []byte {
+				sp := tlsLeafSpec(date(2024, 3, 1), date(2024, 9, 1))
+				sp.Exts = append(sp.Exts, extra...)
+				return sp.Build()
+			},
+			"smime_multipurpose_leaf": func(extra ...*der.Node) []byte {
+				sp := certgen.Spec{
+					Subject:   certgen.Name(certgen.ATV{OID: certgen.OIDCN, Tag: 12, Val: "a@example.com"}),
+					NotBefore: date(2024, 3, 1), NotAfter: date(2025, 3, 1),
+					Exts: []*der.Node{certgen.KeyUsage(0), certgen.EKU(certgen.EKUEmail), certgen.BasicConstraints(false, true),
+						certgen.Policies([]int{2, 23, 140, 1, 5, 1, 2}), certgen.SAN(false, certgen.GNEmail("a@example.com"))},
+				}
+				sp.Exts = append(sp.Exts, extra...)
+				return sp.Build()
+			},
+		}
+		var etn []string
+		for n := range extTmpls {
+			etn = append(etn, n)
+		}
+		sort.Strings(etn)
+		setCrit := func(ext *der.Node, crit bool) *der.Node {
+			c := ext.Clone()
+			var kids []*der.Node
+			for _, k := range c.Children {
+				if k.Class == 0 && k.Tag == 1 && !k.Constructed {
+					continue
+				}
+				kids = append(kids, k)
+			}
+			if crit && len(kids) == 2 {
+				kids = []*der.Node{kids[0], der.Str(1, "\xff"), kids[1]}
+			}
+			c.Children = kids
+			return c
+		}
+		for _, tn := range etn {
+			build := extTmpls[tn]
+			kept := c17HarvestExts(all, build)
+			rep.Add("g_harvested_extensions_"+tn, int64(len(kept)))
+			for i := range kept {
+				for j := i + 1; j < len(kept); j++ {
+					if kept[i].Children[0].IsOID(kept[j].Children[0].Content) || string(kept[i].Children[0].Content) == string(kept[j].Children[0].Content) {
+						continue // the same extension twice: the property exempts duplicated extensions
+					}
+					idx++
+					if !ctx.Mine(idx) {
+						continue
+					}
+					for crit := 0; crit < 4; crit++ {
+						a, b := setCrit(kept[i], crit&1 != 0), setCrit(kept[j], crit&2 != 0)
+						var vec [2]map[string]lint.LintStatus
+						var ders [2][]byte
+						ok := true
+						for o, pair := range [][2]*der.Node{{a, b}, {b, a}} {
+							ders[o] = build(pair[0].Clone(), pair[1].Clone())
+							obj, err := zl.Parse(seeds.Cert, ders[o])
+							if err != nil {
+								ok = false
+								break
+							}
+							vec[o] = statusVector(obj, lint.GlobalRegistry())
+							rep.Inc("states")
+							rep.Inc("transitions")
+							rep.Inc("validated")
+						}
+						if !ok || vec[0] == nil || vec[1] == nil {
+							continue
+						}
+						rep.Inc("extension_pair_classes")
+						for name, st := range vec[0] {
+							if st2, ok := vec[1][name]; ok && st2 != st {
+								x, y := st.String(), st2.String()
+								if x > y {
+									x, y = y, x
+								}
+								rep.Violate("C17|"+name+"|extensions|"+x+"~"+y, fmt.Sprintf("%s: %s when extension %x comes before extension %x, %s the other way round (criticality %v/%v) [template %s]",
+									name, st, kept[i].Children[0].Content, kept[j].Children[0].Content, st2, crit&1 != 0, crit&2 != 0, tn),
+									map[string]interface{}{"kind": "cert", "der_hex": hex.EncodeToString(ders[0]), "other_der_hex": hex.EncodeToString(ders[1]), "where": "harvested extension pair on " + tn})
+							}
+						}
+					}
+				}
+			}
+		}
+	}
 	// ---- corpus seeds: SAN order and extension order -----------------------------------
+	coverSet := map[string]bool{}
+	for _, c := range pickSeeds(all, 1<<30) {
+		coverSet[c.Name] = true
+	}
 	for i := range all {
 		sd := &all[i]
 		if sd.Kind != seeds.Cert {
@@ -421,6 +518,24 @@ func checkC17(ctx *core.Ctx, rep *core.Report) {
 		if el := extList(root); el != nil && len(el.Children) >= 2 && !hasDuplicateExtension(el) {
 			rep.Inc("seed_extension_classes")
 			report(c17Class(root, el, "extensions", rep), "seed "+sd.Name)
+			// the same class once more for every extension with its criticality flipped (on the (lint, status) cover of the
+			// corpus): rules that compare the criticality of several extensions must not care which of them comes first
+			if coverSet[sd.Name] && len(el.Children) <= 12 {
+				for ei, ext := range el.Children {
+					saved := ext.Children
+					switch {
+					case len(saved) == 3 && saved[1].Class == 0 && saved[1].Tag == 1:
+						ext.Children = []*der.Node{saved[0], saved[2]}
+					case len(saved) == 2:
+						ext.Children = []*der.Node{saved[0], der.Str(1, "\xff"), saved[1]}
+					default:
+						continue
+					}
+					rep.Inc("seed_extension_classes_with_flipped_criticality")
+					report(c17Class(root, el, "extensions", rep), fmt.Sprintf("seed %s with the criticality of extension %d flipped", sd.Name, ei))
+					ext.Children = saved
+				}
+			}
 		}
 	}
 }
@@ -540,6 +655,108 @@ func c17Harvest(all []seeds.Seed, build func(san *der.Node) []byte, hand []struc
 	}
 	if rep != nil {
 		rep.Add("g_distinct_corpus_general_names", int64(len(keys)))
+	}
+	return out
+}
+
+// c17HarvestExts: the distinct extensions (OID + value, at most three values per OID) of all corpus certificates whose OID the
+// template does not carry, reduced to a greedy (lint, status) cover on the template.
+func c17HarvestExts(all []seeds.Seed, build func(extra ...*der.Node) []byte) []*der.Node {
+	g := lint.GlobalRegistry()
+	pairsOf := func(extra ...*der.Node) map[string]bool {
+		o, err := zl.Parse(seeds.Cert, build(extra...))
+		if err != nil {
+			return nil
+		}
+		v := statusVector(o, g)
+		if v == nil {
+			return nil
+		}
+		m := map[string]bool{}
+		for n, st := range v {
+			m[n+"|"+st.String()] = true
+		}
+		return m
+	}
+	seen := pairsOf()
+	if seen == nil {
+		return nil
+	}
+	have := map[string]bool{}
+	if root, err := der.Parse(build()); err == nil {
+		if el := extList(root); el != nil {
+			for _, e := range el.Children {
+				if len(e.Children) > 0 {
+					have[string(e.Children[0].Content)] = true
+				}
+			}
+		}
+	}
+	cand := map[string]*der.Node{}
+	perOID := map[string]int{}
+	for i := range all {
+		if all[i].Kind != seeds.Cert {
+			continue
+		}
+		root, err := der.Parse(all[i].DER)
+		if err != nil {
+			continue
+		}
+		el := extList(root)
+		if el == nil {
+			continue
+		}
+		for _, e := range el.Children {
+			if len(e.Children) < 2 || !(e.Children[0].Class == 0 && e.Children[0].Tag == 6) {
+				continue
+			}
+			oid := string(e.Children[0].Content)
+			if have[oid] {
+				continue
+			}
+			cp := e.Clone()
+			k := hex.EncodeToString(cp.Encode())
+			if _, dup := cand[k]; dup || len(k) > 1200 || perOID[oid] >= 3 {
+				continue
+			}
+			perOID[oid]++
+			cand[k] = cp
+		}
+	}
+	keys := make([]string, 0, len(cand))
+	for k := range cand {
+		keys = append(keys, k)
+	}
+	sort.Strings(keys)
+	var out []*der.Node
+	base := pairsOf()
+	keptOID := map[string]bool{}
+	for _, k := range keys {
+		p := pairsOf(cand[k].Clone())
+		fresh := false
+		for x := range p {
+			if !seen[x] {
+				fresh = true
+				seen[x] = true
+			}
+		}
+		// one value of every extension type that changes ANY verdict on the template is kept even if another extension
+		// reached the same (lint, status) pairs before it: two extensions judged by the same rule are the interesting pair
+		oid := string(cand[k].Children[0].Content)
+		if !fresh && !keptOID[oid] {
+			for x := range p {
+				if !base[x] {
+					fresh = true
+				}
+			}
+		}
+		if fresh {
+			keptOID[oid] = true
+			out = append(out, cand[k])
+		}
+		if len(out) >= 48 {
+			break
+		}
 	}
 	return out
 }
